@@ -65,6 +65,14 @@ class Capacity(object):
 
     def _overhead(self, n):
         v = self.ctx.folder.run_program(self.overhead_fn, {self.overhead_fn.params[0]: n})
+        from engine.fold import Raises
+        from engine.index import ModelViolation
+        if isinstance(v, Raises):
+            # the packing loops evaluate Packet.overhead(1 + len(msgs)) *before* they test the message count: with MAX_MESSAGES messages
+            # selected and one more queued the helper is asked about MAX_MESSAGES + 1
+            raise ModelViolation(self.overhead_fn, "Packet.overhead(%d) raises %s" % (n, v.name),
+                                 "the size helper must be total over every count the packing loops ask about (0 .. MAX_MESSAGES + 1): an exception there leaves "
+                                 "packet construction with the already selected messages popped from their queues - they are lost", witness={"n": n, "raises": v.name})
         if not isinstance(v, int):
             raise Undecided("capacity model: Packet.overhead(%d) does not fold" % n)
         return v
